@@ -1,6 +1,6 @@
 (* C08 — property theorems (statements only; proofs live in Proofs*.v).  See notes/C08.md for the status of each. *)
 From Coq Require Import List ZArith QArith Qabs Bool.
-Require Import QV.C08.Model QV.C08.Spec QV.C08.Wf QV.C08.Proofs QV.C08.ProofsVec QV.C08.ProofsRev QV.C08.ProofsConst QV.C08.ProofsTotal QV.C08.ProofsProper QV.C08.ProofsCtor QV.C08.Hist QV.C08.ProofsHist QV.C08.ProofsTrafo QV.C08.ProofsConstT QV.C08.ProofsTotalT QV.C08.ProofsTable QV.C08.ProofsPar QV.C08.ProofsOp QV.C08.ProofsFlat QV.C08.ProofsDen QV.C08.ProofsSimple QV.C08.ProofsHistT QV.C08.Lin QV.C08.ProofsLin QV.C08.ProofsLinDen QV.C08.ProofsDedup QV.C08.ProofsLinHist QV.C08.ProofsR2 QV.C08.ProofsMirror QV.C08.ProofsOkb QV.C08.ProofsSubset QV.C08.ProofsRecipe QV.C08.ProofsRecipeT QV.C08.ProofsRecipeR QV.C08.ProofsMirrorT QV.C08.ProofsTg QV.C08.ProofsSubsetK QV.C08.ProofsRecipeG QV.C08.ProofsExcl.
+Require Import QV.C08.Model QV.C08.Spec QV.C08.Wf QV.C08.Proofs QV.C08.ProofsVec QV.C08.ProofsRev QV.C08.ProofsConst QV.C08.ProofsTotal QV.C08.ProofsProper QV.C08.ProofsCtor QV.C08.Hist QV.C08.ProofsHist QV.C08.ProofsTrafo QV.C08.ProofsConstT QV.C08.ProofsTotalT QV.C08.ProofsTable QV.C08.ProofsPar QV.C08.ProofsOp QV.C08.ProofsFlat QV.C08.ProofsDen QV.C08.ProofsSimple QV.C08.ProofsHistT QV.C08.Lin QV.C08.ProofsLin QV.C08.ProofsLinDen QV.C08.ProofsDedup QV.C08.ProofsLinHist QV.C08.ProofsR2 QV.C08.ProofsMirror QV.C08.ProofsOkb QV.C08.ProofsSubset QV.C08.ProofsRecipe QV.C08.ProofsRecipeT QV.C08.ProofsRecipeR QV.C08.ProofsMirrorT QV.C08.ProofsTg QV.C08.ProofsSubsetK QV.C08.ProofsRecipeG QV.C08.ProofsExcl QV.C08.Guards.
 Import ListNotations.
 Open Scope Q_scope.
 
@@ -345,9 +345,12 @@ Print Assumptions C08_history_shadow_refuted.
    (constructor shape, no linear output that shadows a forwarded channel = exactly the class refuted above,
    get_output_channels defined); if every array object keeps its content the cache stays coherent, by-products included
    (a by-product and a direct request are both bindings of the complete evaluation), and every call is answered like a
-   single call on a fresh object.  Generalises C08_history. *)
+   single call on a fresh object.  Generalises C08_history.  Round 5: guard [kerr w c = false] for every call (known finding
+   C08-chain-parallel-linear-keyerror): a call that raises leaves changed caches behind (modelled in Hist.get_sampled_st since
+   round 5); that the cache stays coherent across a FAILED call is not proved. *)
 Theorem C08_history_lin : forall w content calls, okb w = true -> trans_ok_all w = true ->
   (forall c a ts, In (c, a, ts) calls -> ts = content a) ->
+  (forall c a ts, In (c, a, ts) calls -> kerr w c = false) ->
   run_hist w calls [] = map (fun call => get_sampled w (fst (fst call)) (snd call)) calls.
 Proof. exact history_independent_lin. Qed.
 Print Assumptions C08_history_lin.
